@@ -241,11 +241,10 @@ class RecipeTransformer(peggie.ParseTreeTransformer):
     def decimal(
         self, _pt: peggie.ParseTree, children: Any
     ) -> Tuple[int, Union[int, float]]:
-        number = float(children.string)
         if "." not in children.string:
-            return children.start, int(number)
+            return children.start, int(children.string)
         else:
-            return children.start, number
+            return children.start, float(children.string)
 
     def fraction(self, _pt: peggie.ParseTree, children: Any) -> Tuple[int, Fraction]:
         maybe_integer, numer, _sp1, _slash, _sp2, denom = children
